@@ -305,6 +305,17 @@ pub fn reader_scenarios(tier: Tier) -> (Vec<RScenario>, u32, String) {
         let fs = vec![big.clone()];
         out.push(RScenario { frames: fs.clone(), avail: wire(&fs).len(), max_len: None, ctor: 4, relimit: None });
     }
+    // a limit above the default: both frames around 512 KiB are read; limits at the top of the u32 range
+    for big in large_frames().into_iter().filter(|f| f.payload.len() >= 500_000) {
+        let fs = vec![big.clone()];
+        out.push(RScenario { frames: fs.clone(), avail: wire(&fs).len(), max_len: Some(600_000), ctor: 0, relimit: None });
+    }
+    for m in [0x7fff_ffffu32, 0x8000_0000, u32::MAX - 4, u32::MAX - 3, u32::MAX] {
+        let fs = vec![kinds[0].clone()];
+        out.push(RScenario { frames: fs.clone(), avail: wire(&fs).len(), max_len: Some(m), ctor: 0, relimit: None });
+        let fs = vec![kinds[1].clone(), kinds[0].clone()];
+        out.push(RScenario { frames: fs.clone(), avail: wire(&fs).len(), max_len: None, ctor: 1, relimit: Some((0, m)) });
+    }
     // the limit changed on a reader that has been used: lowered after a larger frame, lowered to exactly the next
     // frame's size, raised
     {
@@ -336,7 +347,7 @@ pub fn reader_scenarios(tier: Tier) -> (Vec<RScenario>, u32, String) {
     }
     out.sort_by_key(|s| std::cmp::Reverse(s.avail));
     let bound = format!(
-        "streams of 0..={} frames over {} payload kinds, <= {} bytes, plus 3 hostile declared lengths, plus frames with payloads of 255/256/257/65535/65536/65537 bytes (alone and between two small frames, cut at 7 points; reads of more than 32 bytes are delivered whole or, as one deviation each, as 1 / half / all-but-one bytes); Reader::new and Reader::with_buffer(recycled buffer, also one with 640 KiB of capacity); set_max_len lowered / raised after a frame on a used reader (11 scenarios); every truncation point; max_len in {{default, L-1, L, L+1}}; all compositions of every read into delivered sizes; <= {} Interrupted errors anywhere",
+        "streams of 0..={} frames over {} payload kinds, <= {} bytes, plus 3 hostile declared lengths, plus frames with payloads of 255/256/257/65535/65536/65537 bytes (alone and between two small frames, cut at 7 points; reads of more than 32 bytes are delivered whole or, as one deviation each, as 1 / half / all-but-one bytes); Reader::new and Reader::with_buffer(recycled buffer, also one with 640 KiB of capacity); set_max_len lowered / raised after a frame on a used reader (11 scenarios); limits 600000 (with frames of 512 KiB and 512 KiB + 1) and 2^31-1 .. u32::MAX; every truncation point; max_len in {{default, L-1, L, L+1}}; all compositions of every read into delivered sizes; <= {} Interrupted errors anywhere",
         max_frames, kinds.len(), max_bytes, interrupts
     );
     (out, interrupts, bound)
@@ -390,6 +401,14 @@ pub fn writer_scenarios(tier: Tier) -> (Vec<WScenario>, u32, String) {
             out.push(WScenario { values: seq.clone(), max_len: Some(l - 1), ctor: 0, relimit: None });
         }
     }
+    for big in large_frames().into_iter().filter(|f| f.payload.len() >= 500_000) {
+        let v = Val::Arr(big.value.clone().unwrap());
+        out.push(WScenario { values: vec![v], max_len: Some(600_000), ctor: 0, relimit: None });
+    }
+    for m in [0x7fff_ffffu32, 0x8000_0000, u32::MAX - 4, u32::MAX - 3, u32::MAX] {
+        out.push(WScenario { values: vec![Val::Arr(vec![5])], max_len: Some(m), ctor: 0, relimit: None });
+        out.push(WScenario { values: vec![Val::Arr(vec![]), Val::Arr(vec![5])], max_len: None, ctor: 1, relimit: Some((0, m)) });
+    }
     {
         let big = Val::Arr(large_frames()[2].value.clone().unwrap());
         let small = Val::Arr(vec![1, 2]);
@@ -407,7 +426,7 @@ pub fn writer_scenarios(tier: Tier) -> (Vec<WScenario>, u32, String) {
         out.push(WScenario { values: vec![small.clone(), tiny.clone()], max_len: Some(2), ctor: 0, relimit: Some((0, 3)) });
     }
     let bound = format!(
-        "0..={} values over {} kinds, max_len in {{default, 1, 2, 3}}, plus values with payloads of 255..65537 bytes (max_len L-1, L, default; writes of more than 32 bytes accepted whole or, as one deviation each, 1 / half / all-but-one bytes); Writer::new and Writer::with_buffer(recycled buffer, also one with 640 KiB of capacity); set_max_len lowered / raised after a value on a used writer (11 scenarios); all splits of every write into accepted sizes; <= {} Interrupted errors anywhere",
+        "0..={} values over {} kinds, max_len in {{default, 1, 2, 3}}, plus values with payloads of 255..65537 bytes (max_len L-1, L, default; writes of more than 32 bytes accepted whole or, as one deviation each, 1 / half / all-but-one bytes); Writer::new and Writer::with_buffer(recycled buffer, also one with 640 KiB of capacity); set_max_len lowered / raised after a value on a used writer (11 scenarios); limits 600000 (with values of 512 KiB and 512 KiB + 1) and 2^31-1 .. u32::MAX; all splits of every write into accepted sizes; <= {} Interrupted errors anywhere",
         max_vals, vals.len(), interrupts
     );
     (out, interrupts, bound)
